@@ -29,6 +29,7 @@ type GwEpoch struct {
 	Dead     bool
 	Touched  bool   // the client has used this channel
 	TouchRef uint64 // wire-log number of the earliest-sent client frame seen on this channel
+	GwSent   bool   // the gateway itself has transmitted telegrams on this channel
 	ConnRes  []byte
 }
 
@@ -84,6 +85,7 @@ type Gateway struct {
 	OnBus        func(cemi []byte) // called for every telegram accepted from the client
 	TCPCutter    func(n int) []int // how each of the gateway's writes is cut into TCP segments (nil: one segment)
 	Busmon       bool              // telegrams for the client are bus monitor indications (the connection is a bus monitor tunnel)
+	InfoLen      func(id int) int  // additional-information octets telegram id carries (nil: none)
 
 	// behaviour knobs
 	Silent         bool          // answers nothing at all
@@ -289,8 +291,10 @@ func (g *Gateway) handle(raw []byte, from *net.UDPAddr, ref uint64) {
 			}
 			g.send(mkConnRes(0, act.status, nil))
 		default:
-			if g.cur != nil && !g.cur.Touched {
+			if g.cur != nil && !g.cur.Touched && !g.cur.GwSent {
 				// retransmitted connect request for a connection nobody used yet: same answer
+				// (once the gateway has sent telegrams on it, its own counters have moved and a
+				// connect request can only mean a new connection)
 				g.send(g.cur.ConnRes)
 				return
 			}
@@ -447,7 +451,21 @@ func (g *Gateway) transmit(o *GwOut) {
 		o.FirstTx = g.e.Stamp()
 	}
 	o.Attempts++
+	if g.cur != nil && g.cur.Channel == o.Channel {
+		g.cur.GwSent = true
+	}
 	c := idCEMI(0x29, o.ID)
+	if g.InfoLen != nil {
+		if n := g.InfoLen(o.ID); n > 0 {
+			// the same telegram with additional information in front of it (up to the 255 octets
+			// the length octet allows: among the largest frames a tunnel carries)
+			info := make([]byte, n)
+			for i := range info {
+				info[i] = byte(o.ID + i)
+			}
+			c = mkLData(0x29, 0xbc, 0xe0, 0x1105, uint16(o.ID), 2, []byte{0, byte(o.ID >> 8), byte(o.ID)}, info)
+		}
+	}
 	if g.Busmon {
 		c = busmonCEMI(o.ID)
 	}
